@@ -32,6 +32,7 @@ type c20Scenario struct {
 	requests   int    // per client
 	mix        string // instant | busy | mixed | hang
 	early      bool   // clients start as soon as the first worker is up (traffic during master start-up)
+	reportDelay int   // ms, hook H7: the master hands every state report to its bookkeeping late
 	unix       bool   // the master listens on a unix socket (-l unix:///path) instead of TCP
 	pidns      bool   // the master runs as process 1 of a new PID namespace (a container's entry point)
 	execDelay  int    // ms, via strace execve delay injection
@@ -182,6 +183,9 @@ func runC20Scenario(c *Ctx, bin string, sc c20Scenario, idx int) (res c20Result)
 	}
 	cmd.Dir = dir
 	cmd.Env = append(os.Environ(), "GORACE=halt_on_error=0 log_path="+filepath.Join(dir, "race"))
+	if sc.reportDelay > 0 {
+		cmd.Env = append(cmd.Env, fmt.Sprintf("ZINC_VERIF_REPORT_DELAY_MS=%d", sc.reportDelay))
+	}
 	stderr := &bytes.Buffer{}
 	cmd.Stderr = stderr
 	cmd.Stdout = stderr
@@ -366,6 +370,15 @@ func runC20Scenario(c *Ctx, bin string, sc c20Scenario, idx int) (res c20Result)
 					}
 					if ci < nh && k == 0 {
 						kind = "hang"
+					}
+				}
+				if sc.mix == "garbage-burst" {
+					// nearly every connection makes its worker report BUSY and end at once: the
+					// report and the exit of one worker reach the master on two channels, in
+					// either order, dozens of times per run
+					kind = "garbage"
+					if k == sc.requests-1 {
+						kind = "instant"
 					}
 				}
 				if sc.mix == "garbage" {
@@ -773,7 +786,7 @@ func readPid(path string) int {
 }
 
 func checkC20(c *Ctx) {
-	c.rule = "the real ZnPMServer master and real worker processes (pmharness: pkg/server + playground handler, hook H1) are started per scenario; scenarios = configurations 1 <= init <= max <= 4 x client concurrency 1..16 x request mix (instant, busy loops, one / two / three requests that outlive --timeout at the same moment, connections that carry no HTTP request so that the accepting worker ends with status 0, requests that stall after part of their headers / part of their body) x scripted kill -9 of one or several live workers at once x execve delay injected with strace (0/5/20/60/150 ms, widens the window between 'spawned' and 'registered') x slow worker start-up x traffic that begins while the master is still starting its initial workers x --init-procs above --max-procs x the master running as process 1 of its own PID namespace x a unix:// listening socket x --init-procs 0 x --max-procs 0 (held by refusing to start) x a --timeout too large for a duration x a request whose head arrives slowly and whose handler is slow (together longer than --timeout). Monitors: /proc children of the master every 2 ms (live workers <= max at every sample; init <= live <= max at a quiescent point = no request outstanding and live set unchanged for 1.5 s); offline checker over the handler log written at the worker boundary (per-worker request intervals never overlap, every token handled once, response == own token, timed-out worker gone); race-detector reports of a -race build are recorded for information only. distinct_nontrivial = distinct (scenario parameters) + distinct 4-grams over {worker_start, req_start, req_end} events seen"
+	c.rule = "the real ZnPMServer master and real worker processes (pmharness: pkg/server + playground handler, hook H1) are started per scenario; scenarios = configurations 1 <= init <= max <= 4 x client concurrency 1..16 x request mix (instant, busy loops, one / two / three requests that outlive --timeout at the same moment, connections that carry no HTTP request so that the accepting worker ends with status 0, requests that stall after part of their headers / part of their body) x scripted kill -9 of one or several live workers at once x execve delay injected with strace (0/5/20/60/150 ms, widens the window between 'spawned' and 'registered') x slow worker start-up x traffic that begins while the master is still starting its initial workers x --init-procs above --max-procs x the master running as process 1 of its own PID namespace x state reports handed to the bookkeeping 120-250 ms late (hook H7: reports overtaken by exits and registrations) x bursts of connections that make their worker report BUSY and end at once x a unix:// listening socket x --init-procs 0 x --max-procs 0 (held by refusing to start) x a --timeout too large for a duration x a request whose head arrives slowly and whose handler is slow (together longer than --timeout). Monitors: /proc children of the master every 2 ms (live workers <= max at every sample; init <= live <= max at a quiescent point = no request outstanding and live set unchanged for 1.5 s); offline checker over the handler log written at the worker boundary (per-worker request intervals never overlap, every token handled once, response == own token, timed-out worker gone); race-detector reports of a -race build are recorded for information only. distinct_nontrivial = distinct (scenario parameters) + distinct 4-grams over {worker_start, req_start, req_end} events seen"
 	c.assumptions = []string{"a child that has been forked but has not exec'd yet is reported separately and not counted as a live worker", "strace execve delay injection only delays, it does not change behaviour", "not reaching a quiescent point within 60 s is inconclusive, not a violation"}
 	if _, err := exec.LookPath("strace"); err != nil {
 		c.Inconclusive("strace not found: " + err.Error())
@@ -796,6 +809,9 @@ func checkC20(c *Ctx) {
 		}
 		if s.unix {
 			s.name += "-unix"
+		}
+		if s.reportDelay > 0 {
+			s.name += fmt.Sprintf("-reportdelay%d", s.reportDelay)
 		}
 		if s.timeout != 2 && s.timeout != 1 {
 			s.name += fmt.Sprintf("-timeout%d", s.timeout)
@@ -821,6 +837,11 @@ func checkC20(c *Ctx) {
 		add(c20Scenario{initP: 4, maxP: 4, timeout: 2, clients: 6, requests: 4, mix: "hang3"})
 		add(c20Scenario{initP: 3, maxP: 3, timeout: 2, clients: 6, requests: 8, mix: "busy", kills: 2, killBurst: 2})
 		add(c20Scenario{initP: 2, maxP: 3, timeout: 2, clients: 4, requests: 6, mix: "garbage"})
+		add(c20Scenario{initP: 2, maxP: 2, timeout: 2, clients: 4, requests: 14, mix: "garbage-burst"})
+		add(c20Scenario{initP: 3, maxP: 4, timeout: 2, clients: 6, requests: 12, mix: "garbage-burst", execDelay: 5})
+		add(c20Scenario{initP: 2, maxP: 2, timeout: 2, clients: 4, requests: 10, mix: "garbage-burst", reportDelay: 250})
+		add(c20Scenario{initP: 2, maxP: 4, timeout: 2, clients: 6, requests: 8, mix: "mixed", reportDelay: 120})
+		add(c20Scenario{initP: 3, maxP: 3, timeout: 2, clients: 6, requests: 6, mix: "mixed", kills: 2, reportDelay: 200})
 		add(c20Scenario{initP: 2, maxP: 3, timeout: 1, clients: 4, requests: 5, mix: "stall"})
 		add(c20Scenario{initP: 2, maxP: 3, timeout: 2, clients: 3, requests: 4, mix: "slowhead"})
 		add(c20Scenario{initP: 4, maxP: 2, timeout: 2, clients: 6, requests: 6, mix: "busy"})
